@@ -65,6 +65,20 @@ func variants(d doc) []doc {
 			v.Eps[i].BodyRef = ""
 			out = append(out, v)
 		}
+		for k := range e.Consumes {
+			if len(e.Consumes) > 2 {
+				v := cloneDoc(d)
+				v.Eps[i].Consumes = append(v.Eps[i].Consumes[:k], v.Eps[i].Consumes[k+1:]...)
+				out = append(out, v)
+			}
+		}
+		for k := range e.Produces {
+			if len(e.Produces) > 2 {
+				v := cloneDoc(d)
+				v.Eps[i].Produces = append(v.Eps[i].Produces[:k], v.Eps[i].Produces[k+1:]...)
+				out = append(out, v)
+			}
+		}
 	}
 	// drop a schema nobody refers to
 	refd := map[string]bool{}
@@ -155,7 +169,7 @@ func shrink(c *common.Ctx, d doc, class string, budget int) (doc, [2]string) {
 			return [2]string{}, false
 		}
 		for _, f := range o.Failures {
-			if keyClass(f[0]) == class {
+			if keyClass(f[0]) == class || f[0] == class {
 				return f, true
 			}
 		}
